@@ -19,6 +19,20 @@ def register(J):
                            "precondition (gate passed, callback accepted) holds at its only call; "
                            "C13/C20: parse failure frees the object once and clears the out-pointer. C05: the parser is "
                            "entered with the caller's delimiter set and comment set, \"#\" for an empty comment set."))
+    for n, fn, repl in ((1, "econf_readFileWithCallback", ["econf_newKeyFile_with_options", "read_file_with_callback", "econf_freeFile"]),
+                        (2, "econf_readFile", ["econf_readFileWithCallback"])):
+        J.append(Job("entry." + fn, ["C16", "C06", "C13", "C20"], "harness/entry.c", sources=["lib/libeconf.c"],
+                     contracts=["contracts/entry.h"], enforce=fn, replace=repl, defines=["-DFN=%d" % n],
+                     unwind=8, tier="T1", timeout=600, mem_gb=8, functions=[fn],
+                     expect=[fn + r"\.postcondition\.", r"precondition"],
+                     trusted=["econf_newKeyFile_with_options(.., \"\") hands out a fresh object or ECONF_NOMEM (assumed "
+                              "contract in contracts/entry.h; bounded evidence: jobs options.*)"] if n == 1 else [],
+                     statement="C16/C06/C13/C20: the single-file entry point adds nothing to and drops nothing from the "
+                               "contract of read_file_with_callback (proved by job rfwc, REPLACED here): same path, "
+                               "delimiter set, comment set, callback and data; every restriction's specific code, the "
+                               "callback-failed code and the parser's code reach the caller; the parser runs at most once "
+                               "and only behind the gate; after a failure the caller's pointer is NULL and the object "
+                               "created for the call was released exactly once."))
     for n, fn in enumerate(["econf_requireOwner", "econf_requireGroup", "econf_requirePermissions",
                             "econf_followSymlinks", "econf_reset_security_settings"], 1):
         J.append(Job("security." + fn, ["C16", "C18"], "harness/security.c", sources=["lib/libeconf.c"],
